@@ -9,7 +9,10 @@ C09 — Every public load/dump entry point agrees with the class-level codec.
 
 Reading.  The quantifier "for the full matrix {load, loads, load_all, loads_all, dump, dumps} × {xyz, mol2,
 cdxml, unsupported} × {path, stream, str} × {molecule, ensemble, Structure class} × {name given, not given}" is a
-finite table: `Molli.Model.Dispatch.Cell` (432 cells, `allCells`, `mem_allCells`).
+finite table: `Molli.Model.Dispatch.Config` (432 configurations).  A path source / target can name its format a
+second time, by its suffix, so the matrix carries a sixth dimension, the FORM of the path argument (explicit format
+with a matching / no / other supported / unsupported suffix, or format deduced from the suffix):
+`Molli.Model.Dispatch.Cell` (2160 cells, `allCells`, `mem_allCells`).
 `Molli.Gen.Dispatch.observed` is what the code DOES in each cell (regenerated from the live repository on every
 run by spying on the class methods); `Molli.Model.Dispatch.spec` is what the property DEMANDS (written from the
 statement above).  `dispatch_agrees` is the whole property at the level of dispatch; the corollaries spell out
@@ -23,20 +26,30 @@ open Molli.Model.Dispatch Molli.Lemmas.Dispatch Molli.Gen.Dispatch
 
 /-- "…return or write exactly what the corresponding … class methods do" — in EVERY cell of the matrix the
 observed action of the entry point is the specified one (exhaustive finite quantifier, lifted from the table
-check `table_agrees` by the enumeration lemma `mem_allCells`). -/
+check `table_agrees`, one pass over the table) by `lookup_of_zip_all` (row `c.idx` of the enumeration is the cell `c`). -/
 theorem dispatch_agrees : ∀ c : Cell, observed c = spec classRaises c := by
   intro c
-  have h := forall_of_allCells table_agrees c
-  exact of_decide_eq_true h
+  exact lookup_of_zip_all table_complete table_agrees c
 
-/-- the matrix has 432 cells and every cell has its own row of the observed table -/
-theorem matrix_complete : allCells.length = 432 ∧ table.length = 432 ∧ ∀ c : Cell, c.idx < table.length := by
+/-- the matrix has 2160 cells and every cell has its own row of the observed table -/
+theorem matrix_complete : allCells.length = 2160 ∧ table.length = 2160 ∧ ∀ c : Cell, c.idx < table.length := by
   refine ⟨allCells_length, table_complete, fun c => ?_⟩
   rw [table_complete]; exact idx_lt c
 
 /-- a cell is called exactly when it lies in the domain of its entry point; the others are recorded as such -/
 theorem applicable_cells : ∀ c : Cell, (observed c).applicable = applicable c := by
   intro c; rw [dispatch_agrees]; exact spec_applicable _ c
+
+/-- "for each supported format, each source or target kind (path, …)": for a path source or target the action does
+not depend on the FORM of the path — an explicitly given format wins over whatever suffix the path carries (none,
+that of another supported format, an unsupported one), and an omitted format is the one the suffix names. -/
+theorem path_form_irrelevant (c : Cell) (hk : c.kind = .path) (p : PathForm) :
+    observed ⟨c.toConfig, p⟩ = observed c := by
+  rw [dispatch_agrees, dispatch_agrees]; exact spec_form_irrelevant _ c hk p
+
+example : (observed ⟨⟨.dump, .xyz, .path, .molecule, .notGiven⟩, .explicitOtherSuffix⟩).reached = .meth .molecule .dump .xyz ∧
+    (observed ⟨⟨.load, .unsupported, .path, .molecule, .notGiven⟩, .explicitOtherSuffix⟩).result = .raised .valueError := by
+  decide +kernel
 
 /-- "lists where lists are promised": `load_all` / `loads_all` never return a bare object — whatever they return
 is a list of the requested class; and for the xyz / mol2 codecs they do return that list whenever the class-level
@@ -49,7 +62,7 @@ theorem lists_where_promised (c : Cell) (hl : c.entry = .loadAll ∨ c.entry = .
   rw [dispatch_agrees]
   exact ⟨fun k hr => spec_list _ c hl' k hr, fun ha ho hf hc => spec_list_returned _ c ha hl' ho hf hc⟩
 
-example : (observed ⟨.loadsAll, .xyz, .str, .molecule, .notGiven⟩).result = .returned (.list .molecule) := by
+example : (observed ⟨⟨.loadsAll, .xyz, .str, .molecule, .notGiven⟩, .explicitMatching⟩).result = .returned (.list .molecule) := by
   decide +kernel
 
 /-- "ValueError for unsupported formats": in every applicable cell with an unsupported format the entry point
@@ -59,7 +72,7 @@ theorem unsupported_is_valueerror (c : Cell) (ha : applicable c = true) (hf : c.
     (observed c).wrote = .nothing ∧ (observed c).streamOk = true := by
   rw [dispatch_agrees, spec_unsupported _ c ha hf]; simp [refuse]
 
-example : applicable ⟨.dump, .unsupported, .stream, .ensemble, .notGiven⟩ = true := by decide
+example : applicable ⟨⟨.dump, .unsupported, .stream, .ensemble, .notGiven⟩, .explicitMatching⟩ = true := by decide
 
 /-- "honoured name overrides": whenever a name is given and the entry point returns, the name was forwarded to
 the class-level codec AND every returned object carries it; without a name none is invented. -/
@@ -69,7 +82,7 @@ theorem name_honoured (c : Cell) :
   rw [dispatch_agrees]
   exact ⟨fun hn k hr => spec_name _ c hn k hr, fun hn => spec_no_name _ c hn⟩
 
-example : ∃ k, (observed ⟨.loads, .mol2, .str, .ensemble, .given⟩).result = .returned k :=
+example : ∃ k, (observed ⟨⟨.loads, .mol2, .str, .ensemble, .given⟩, .explicitMatching⟩).result = .returned k :=
   ⟨.obj .ensemble, by decide +kernel⟩
 
 /-- "text written to the stream given": `dump` into an open stream returns `None` with the text in the caller's
@@ -82,7 +95,7 @@ theorem stream_untouched (c : Cell) :
   rw [dispatch_agrees]
   exact ⟨spec_streamOk _ c, fun he hk k hr => spec_dump_stream _ c he hk k hr⟩
 
-example : (observed ⟨.dump, .mol2, .stream, .molecule, .notGiven⟩).result = .returned .none := by decide +kernel
+example : (observed ⟨⟨.dump, .mol2, .stream, .molecule, .notGiven⟩, .explicitMatching⟩).result = .returned .none := by decide +kernel
 
 /-- "the corresponding Molecule / ConformerEnsemble class methods": for the molli codecs the class method of the
 requested class, the same operation and the same format is the one reached, with the caller's source / target. -/
